@@ -152,7 +152,7 @@ def run(ctx: Ctx):
     for rec in recs:
         ctx.count(1, nontrivial_key=("poly", str(rec["flat"]), rec["scale6"]))
     grids = [("ico_12", "[0.2, 0.3]"), ("cube3D_8", "[0.2, 0.35]"), ("ico_7", "[0.2, 0.3, 0.45]"), ("cube3D_9", "[0.3]"),
-             ("randomS_12", "[0.2, 0.3]"), ("ico_20", "[0.25, 0.4]"), ("cube3D_26", "[0.3]")]
+             ("randomS_12", "[0.2, 0.3]"), ("ico_20", "[0.25, 0.4]"), ("cube3D_26", "[0.3]"), ("randomS_6", "[0.2, 0.3]")]
     if thorough:
         grids += [("ico_42", "[0.3]"), ("ico_13", "[0.2, 0.3, 0.4]"), ("cube3D_27", "[0.2, 0.3]"), ("randomS_30", "[0.3]"), ("ico_5", "[0.2, 0.4]"),
                   ("randomS_20", "[0.2, 0.35]"), ("cube3D_13", "[0.25, 0.3, 0.5]"), ("ico_4", "[0.2, 0.3]"), ("ico_30", "[0.2, 0.3]")]
